@@ -82,4 +82,33 @@ theorem skel_OAuthProxy_OAuthCallback_ok : skel_OAuthProxy_OAuthCallback = ([
   "http.Redirect",
   "p.ErrorPage"] : List String) := rfl
 
+theorem skel_validator_IsValidRedirect_ok : skel_validator_IsValidRedirect = ([
+  "case redirect == \"\"",
+  "return false",
+  "case strings.HasPrefix(redirect, \"/\") && !strings.HasPrefix(redirect, \"//\") && !invalidRedirectRegex.MatchString(redirect)",
+  "strings.HasPrefix",
+  "strings.HasPrefix",
+  "invalidRedirectRegex.MatchString",
+  "return true",
+  "case strings.HasPrefix(redirect, \"http://\") || strings.HasPrefix(redirect, \"https://\")",
+  "strings.HasPrefix",
+  "strings.HasPrefix",
+  "url.Parse",
+  "if err != nil",
+  "return false",
+  "if util.IsEndpointAllowed(redirectURL, v.allowedDomains)",
+  "util.IsEndpointAllowed",
+  "return true",
+  "return false",
+  "case ",
+  "return false"] : List String) := rfl
+
+theorem skel_appDirector_GetRedirect_ok : skel_appDirector_GetRedirect = ([
+  "if err != nil",
+  "return \"\", err",
+  "if redirect != \"\" && a.validator.IsValidRedirect(redirect)",
+  "a.validator.IsValidRedirect",
+  "return redirect, nil",
+  "return \"/\", nil"] : List String) := rfl
+
 end O2P.Expect.C06
